@@ -120,6 +120,12 @@ def routing_checks(seed):
         s = mk(nn.L1Loss())
         if abs(s.loss_fn(r, None, None).item() - 2.5) > 1e-12:
             bad.append(dict(case='torch loss object is not applied against zeros'))
+        # a torch loss object is used as the user configured it (reduction, weights): applied against zeros, nothing else
+        for obj, want in ((nn.L1Loss(reduction='sum'), 10.0), (nn.MSELoss(reduction='sum'), 30.0), (nn.MSELoss(), 7.5),
+                          (nn.SmoothL1Loss(reduction='sum'), 8.0), (nn.HuberLoss(reduction='mean', delta=0.5), 1.125)):
+            got = mk(obj).loss_fn(r, None, None).item()
+            if abs(got - want) > 1e-12:
+                bad.append(dict(case='torch loss object is not applied as configured', loss=repr(obj), got=got, want=want))
         f = lambda rr, ff, xx: (rr ** 2).sum()
         if mk(f).loss_fn is not f:
             bad.append(dict(case='callable loss is not used as is'))
